@@ -616,3 +616,60 @@ specialise(
     reach=False,
     classifier=lambda call, replay: "F23",
 )
+
+
+# ---- f: regeneration from one Survey object (round 3) -------------------------------------------------------
+from harness.common import tree  # noqa: E402
+
+
+def c07_regenerate(usage: int, times: int, la0: bool, la1: bool, lb0: bool, lb1: bool, ima: bool, c0: int) -> bool:
+    """
+    vpre: la0 or la1 or ima
+    vpre: lb0 or lb1
+    vpre: 2 <= times <= 3
+    vpre: 97 <= c0 <= 122
+    vpost: _ == True
+    """
+    a = {"list_name": "l1", "name": "a"}
+    b = {"list_name": "l1", "name": "b"}
+    if la0:
+        a["label"] = S(c0, 49)
+    if la1:
+        a["label::L1"] = S(c0, 50)
+    if ima:
+        a["image"] = "a.png"
+    if lb0:
+        b["label"] = S(c0, 51)
+    if lb1:
+        b["label::L1"] = S(c0, 52)
+    rows = [{"type": "select_one l1", "name": "q1", "label": "Q1"}]
+    if usage == 1:
+        rows.append({"type": "select_multiple l1", "name": "q2", "label": "Q2", "choice_filter": "true()"})
+    elif usage == 2:
+        rows[0]["appearance"] = "search('mydata')"
+    survey, _w, _js = build_survey({"survey": rows, "choices": [a, b]})
+    first = None
+    for _i in range(times):
+        root = survey.xml()
+        if not closure_ok(root, "default"):
+            return False
+        t = tree(root)
+        if first is None:
+            first = t
+        elif t != first:
+            return False
+    return True
+
+
+specialise(
+    "C07",
+    "f.regenerate",
+    c07_regenerate,
+    {"usage": [0, 1, 2]},
+    timeout=500,
+    kernel=K + ("pyxform.survey:Survey._generate_static_instances", "pyxform.survey:Survey._redirect_is_search_itext", "pyxform.question:Itemset.get_options", "pyxform.question:MultipleChoiceQuestion.build_xml"),
+    shims=("S1", "S2", "S3", "S4"),
+    symbolic="as b.choices, plus the number of times (2-3) the XForm is generated from the same Survey object",
+    bounds="one list of 2 choices used by one select / two selects (one filtered) / a search() select (fixed per instance); every generation satisfies the itext closure oracle and equals the first",
+    weight=120,
+)
